@@ -169,6 +169,26 @@ func (e *Eng) execStmt(st *State, s ast.Stmt) *State {
 		return st
 	case *ast.GoStmt:
 		return e.execGo(st, s)
+	case *ast.SendStmt:
+		// channel send: a ghost event (channel contents and blocking are not modelled)
+		v := e.eval(st, s.Value)
+		key := "send " + e.srcFull(s.Chan)
+		if e.con != nil {
+			if cls, ok := e.con.At[key]; ok {
+				e.con.atUsed[key] = true
+				env := e.specEnvFromState(st)
+				env["val"] = v
+				for _, cl := range cls {
+					if cl.Kind == "requires" {
+						g := e.evalSpec(st, cl.Expr, env, e.oldEnv)
+						e.oblige(st, "at", key+" requires "+cl.Src, g.T, s.Pos())
+					}
+				}
+			}
+		}
+		st.counters["send"] = fmt.Sprintf("(+ %s 1)", counterOf(st, "send"))
+		e.gap("channel send modelled as a ghost event only")
+		return st
 	case *ast.EmptyStmt:
 		return st
 	case *ast.LabeledStmt:
@@ -945,8 +965,17 @@ func (e *Eng) execGo(st *State, s *ast.GoStmt) *State {
 	child.defers = nil
 	before := len(e.exits)
 	e.inGo++
-	e.execClosure(child, lit, args)
+	gout, _ := e.execClosure(child, lit, args)
 	e.inGo--
+	if gout != nil && e.con != nil {
+		for i, ge := range e.con.GoEnsures {
+			if i < len(e.con.GoEnsProp) && e.con.GoEnsProp[i] != "" && e.con.GoEnsProp[i] != e.propID {
+				continue
+			}
+			g := e.evalSpec(gout, ge, e.specEnvFromState(gout), e.oldEnv)
+			e.oblige(gout, "goensures", fmt.Sprintf("goroutine%d#%d", ord, i+1), g.T, s.Pos())
+		}
+	}
 	// panics that escaped the goroutine body
 	var keep []Exit
 	for i, x := range e.exits {
@@ -964,7 +993,7 @@ func (e *Eng) execGo(st *State, s *ast.GoStmt) *State {
 			st.vars[o] = e.freshVal("go."+o.Name(), o.Type())
 		}
 	}
-	st.counters["go"] = fmt.Sprintf("(+ %s 1)", counterOf(st, "go"))
+	st.counters["spawn"] = fmt.Sprintf("(+ %s 1)", counterOf(st, "spawn"))
 	e.havocHeap(st)
 	return st
 }
